@@ -41,6 +41,14 @@ type world struct {
 	wants    map[int]map[string]map[string]want // class -> iface -> cidr -> want
 	fresh    bool                               // no out-of-band route edit since the last successful full resync
 	needFull bool
+	pend     []func() // interface-monitor callbacks not delivered yet
+	told     map[string]int // name -> index as Felix was last told (callbacks delivered, or a successful full resync)
+	// reuseTaint (known finding): a per-interface rescan (an Apply without a full resync) has refreshed an interface
+	// whose kernel index differs from the index Felix was told for it, or is an index Felix was told for ANOTHER name
+	// that it has not been told is gone: resyncIface -> OnIfaceStateChanged then renumbers/renames directly and leaves
+	// stale entries behind in ifaceNameToIndex / ifaceIndexToState; sticky until the next `new`
+	reuseTaint bool
+	ifStale  bool // a link changed without a callback and no full resync has succeeded since: Felix cannot know the interfaces
 	tainted  bool // a route-listing failure was swallowed by a per-interface rescan and no full resync has happened since
 }
 
@@ -197,6 +205,79 @@ func (w *world) ownedByFelix(r netlink.Route) bool {
 	return false
 }
 
+// linkChange: link `name` gets index idx and state st ("up"/"down") or disappears ("gone") in the kernel.  The
+// kernel drops the routes of a link that goes down or away, those on the old index of a re-created link, and
+// those of another link whose index is taken over (that link disappears).  The callbacks the interface monitor
+// sends for it are queued, in order: a deletion for the link that lost its index, a deletion for the old
+// incarnation of a re-created link, then the new state.
+func (w *world) linkChange(name string, idx int, st string) {
+	dropIdx := func(i int) {
+		for k, r := range w.dp.RouteKeyToRoute {
+			if r.LinkIndex == i {
+				delete(w.dp.RouteKeyToRoute, k)
+			}
+		}
+	}
+	cb := func(n string, i int, s ifacemonitor.State) {
+		w.pend = append(w.pend, func() {
+			w.tbl.OnIfaceStateChanged(n, i, s)
+			if s == ifacemonitor.StateNotPresent {
+				delete(w.told, n)
+			} else {
+				w.told[n] = i
+			}
+		})
+	}
+	var others []string
+	for n, s := range w.ifaces {
+		if n != name && s[0] == idx {
+			others = append(others, n)
+		}
+	}
+	sort.Strings(others)
+	for _, n := range others {
+		delete(w.dp.NameToLink, n)
+		delete(w.ifaces, n)
+		dropIdx(idx)
+		cb(n, idx, ifacemonitor.StateNotPresent)
+	}
+	if st != "up" {
+		dropIdx(idx)
+	}
+	if old, had := w.ifaces[name]; had && old[0] != idx {
+		dropIdx(old[0])
+		delete(w.dp.NameToLink, name)
+		cb(name, old[0], ifacemonitor.StateNotPresent)
+	}
+	if st == "gone" {
+		delete(w.dp.NameToLink, name)
+		delete(w.ifaces, name)
+		cb(name, idx, ifacemonitor.StateNotPresent)
+		return
+	}
+	up := st == "up"
+	if _, ok := w.dp.NameToLink[name]; ok {
+		w.dp.SetIface(name, up, up)
+	} else {
+		w.dp.AddIface(idx, name, up, up)
+	}
+	state, u := ifacemonitor.StateDown, 0
+	if up {
+		state, u = ifacemonitor.StateUp, 1
+	}
+	w.ifaces[name] = [2]int{idx, u}
+	cb(name, idx, state)
+}
+
+// flush: the delayed callbacks arrive; from then on Felix has been told about every link.
+func (w *world) flush() {
+	for _, f := range w.pend {
+		f()
+	}
+	w.pend = nil
+	w.ifStale = false
+}
+
 func exec(w *world, op string) string {
 	ws := strings.Fields(op)
 	atoi := func(s string) int {
@@ -214,47 +295,19 @@ func exec(w *world, op string) string {
 			routetable.WithTimeShim(mocktime.New()), routetable.WithConntrackShim(w.dp), routetable.WithNetlinkHandleShim(w.dp.NewMockNetlink))
 		w.ifaces = map[string][2]int{}
 		w.wants = map[int]map[string]map[string]want{}
-		w.fresh, w.needFull, w.tainted = false, true, false
+		w.fresh, w.needFull, w.tainted, w.ifStale, w.pend = false, true, false, false, nil
+		w.told, w.reuseTaint = map[string]int{}, false
 		return "ok"
 	case "iface":
-		idx := atoi(ws[2])
-		if ws[3] != "up" {
-			// the kernel removes the routes of an interface that goes down or away
-			for k, r := range w.dp.RouteKeyToRoute {
-				if r.LinkIndex == idx {
-					delete(w.dp.RouteKeyToRoute, k)
-				}
-			}
-		}
-		switch ws[3] {
-		case "gone":
-			delete(w.dp.NameToLink, ws[1])
-			delete(w.ifaces, ws[1])
-			w.tbl.OnIfaceStateChanged(ws[1], idx, ifacemonitor.StateNotPresent)
-		default:
-			up := ws[3] == "up"
-			if l, ok := w.dp.NameToLink[ws[1]]; ok && l.LinkAttrs.Index == idx {
-				w.dp.SetIface(ws[1], up, up)
-			} else {
-				if ok {
-					// re-created with another index: the kernel dropped the routes of the old interface
-					for k, r := range w.dp.RouteKeyToRoute {
-						if r.LinkIndex == l.LinkAttrs.Index {
-							delete(w.dp.RouteKeyToRoute, k)
-						}
-					}
-				}
-				delete(w.dp.NameToLink, ws[1])
-				w.dp.AddIface(idx, ws[1], up, up)
-			}
-			st := ifacemonitor.StateDown
-			u := 0
-			if up {
-				st, u = ifacemonitor.StateUp, 1
-			}
-			w.ifaces[ws[1]] = [2]int{idx, u}
-			w.tbl.OnIfaceStateChanged(ws[1], idx, st)
-		}
+		w.linkChange(ws[1], atoi(ws[2]), ws[3])
+		w.flush()
+		return "ok"
+	case "link":
+		w.linkChange(ws[1], atoi(ws[2]), ws[3])
+		w.ifStale = true
+		return "ok"
+	case "flush":
+		w.flush()
 		return "ok"
 	case "kroute":
 		w.dp.AddMockRoute(mkRoute(ws[1], atoi(ws[2]), ws[3], atoi(ws[4]), ws[5]))
@@ -327,7 +380,29 @@ func exec(w *world, op string) string {
 		}
 		exp := w.expected()
 		// Felix's picture of the table is trustworthy during this Apply iff it is fresh or re-read first
-		viewOK := w.fresh || w.needFull
+		viewOK := (w.fresh || w.needFull) && (!w.ifStale || w.needFull)
+		if !w.needFull {
+			// interfaces this Apply may rescan: those queued now, and (after a failing RouteReplace on a link that is
+			// down or gone) any interface, in the inline retry
+			queued := map[string]bool{}
+			for _, n := range w.tbl.VerifState().Rescan {
+				queued[n] = true
+			}
+			anyIface := f&mocknetlink.FailNextRouteReplace != 0
+			for n, st := range w.ifaces {
+				if !queued[n] && !anyIface {
+					continue
+				}
+				if i, ok := w.told[n]; ok && i != st[0] {
+					w.reuseTaint = true // the rescan renumbers n directly (ifaceIndexToState of the old index is left behind)
+				}
+				for n2, i := range w.told {
+					if n2 != n && i == st[0] {
+						w.reuseTaint = true // the rescan puts n onto an index whose previous holder Felix has not been told is gone
+					}
+				}
+			}
+		}
 		hadR := f&mocknetlink.FailNextRouteList != 0
 		needFullBefore := w.needFull
 		err := w.tbl.Apply()
@@ -354,27 +429,36 @@ func exec(w *world, op string) string {
 			if w.needFull {
 				w.fresh = true
 				w.tainted = false
+				w.ifStale = false
+				w.told = map[string]int{}
+				for n, st := range w.ifaces {
+					w.told[n] = st[0]
+				}
 			}
 			w.needFull = false
 			// routes_converge + class_priority_wins (only demanded when Felix has re-read the table since
 			// the last out-of-band edit: a successful Apply without a resync does not look at the kernel)
 			for c, e := range exp {
-				if w.fresh && after[c] != e {
+				if w.fresh && !w.ifStale && after[c] != e {
 					sig := "route-not-converged"
 					if w.tainted {
 						sig = "route-not-converged-after-swallowed-rescan-list-error"
+					} else if w.reuseTaint {
+						sig = "route-not-converged-after-ifindex-reuse-rescan"
 					}
 					w.h.OracleFail(sig, "after a successful Apply the kernel route for a desired destination is not the class-priority winner",
 						map[string]any{"cidr": c, "kernel": after[c], "expected": e, "op": op})
 				}
 			}
 			// stale_owned_removed
-			if w.fresh {
+			if w.fresh && !w.ifStale {
 				for _, r := range w.dp.RouteKeyToRoute {
 					if _, wanted := exp[r.Dst.String()]; !wanted && w.ownedByFelix(r) {
 						sig := "stale-owned-route"
 						if w.tainted {
 							sig = "stale-owned-route-after-swallowed-rescan-list-error"
+						} else if w.reuseTaint {
+							sig = "stale-owned-route-after-ifindex-reuse-rescan"
 						}
 						w.h.OracleFail(sig, "after a successful Apply a route Felix owns but does not want is still present",
 							map[string]any{"route": r.Dst.String() + "=" + showRoute(r), "op": op})
@@ -426,7 +510,9 @@ func genCase(h *rt.H) []string {
 		ops = append(ops, kroute())
 	}
 	n := 6 + h.Intn(18)
-	pending := 0 // interfaces possibly queued for a per-interface rescan
+	pending := 0    // interfaces possibly queued for a per-interface rescan
+	delayed := false // callbacks are pending: Felix may believe a link is up that is gone, and then which route a
+	// single RouteReplace/RouteDel failure hits (Go map order) changes the outcome
 	applyOp := func(allowList bool) string {
 		// listing failures and per-route failures are not mixed in one Apply, and a listing failure is only
 		// injected while at most one interface is queued for a rescan: otherwise which interface (or which
@@ -440,7 +526,7 @@ func genCase(h *rt.H) []string {
 					}
 				}
 			}
-		} else {
+		} else if !delayed {
 			for _, c := range []string{"p", "d"} {
 				if h.Intn(4) == 0 {
 					f += c
@@ -487,15 +573,36 @@ func genCase(h *rt.H) []string {
 		case k < 17:
 			nme := rt.Pick(h, ifNames)
 			st := rt.Pick(h, []string{"up", "down", "gone", "up", "flap"})
-			if st == "up" && h.Intn(4) == 0 {
-				idx[nme] += 100 // interface recreated with a new index
+			// a third of the link changes reach Felix only through a later resync (no callback)
+			verb := "iface"
+			if h.Intn(3) == 0 {
+				verb = "link"
+			}
+			if st == "up" {
+				switch h.Intn(6) {
+				case 0:
+					idx[nme] += 100 // interface recreated with a new index
+				case 1:
+					// ... or with the index another (present or former) interface has: index re-use / rename
+					idx[nme] = idx[rt.Pick(h, ifNames)]
+				}
 			}
 			if st == "flap" {
 				// down and up again between two applies: the kernel has dropped the routes
-				ops = append(ops, fmt.Sprintf("iface %s %d down", nme, idx[nme]))
+				ops = append(ops, fmt.Sprintf("%s %s %d down", verb, nme, idx[nme]))
 				st = "up"
 			}
-			ops = append(ops, fmt.Sprintf("iface %s %d %s", nme, idx[nme], st))
+			ops = append(ops, fmt.Sprintf("%s %s %d %s", verb, nme, idx[nme], st))
+			delayed = delayed && verb == "link" || verb == "link"
+			if verb == "link" {
+				switch h.Intn(3) {
+				case 0:
+					ops = append(ops, "resync")
+				case 1:
+					ops = append(ops, "flush")
+					delayed = false
+				}
+			}
 			if st == "up" {
 				pending++
 				if h.Intn(3) != 0 {
@@ -518,7 +625,7 @@ func main() {
 	defer h.Close()
 	gomega.RegisterFailHandler(func(msg string, _ ...int) { panic("mock expectation failed: " + msg) })
 	h.Rule = "case = ownership mode + interfaces (workload/vxlan/host/foreign, up/down/absent/renumbered) + start routes (Felix-protocol, other protocols, on workload/special/foreign interfaces) + " +
-		"6..23 ops over {SetRoutes, RouteUpdate, RouteRemove for 4 route classes, interface events, out-of-band route add/delete, QueueResync, Apply with LinkList/RouteList/RouteReplace/RouteDel failures}; " +
+		"6..23 ops over {SetRoutes, RouteUpdate, RouteRemove for 4 route classes, interface events with and without monitor callbacks (state change, deletion, re-creation with a new index, index re-use/rename), out-of-band route add/delete, QueueResync, Apply with LinkList/RouteList/RouteReplace/RouteDel failures}; " +
 		"non-trivial = an Apply returned an error, or two classes/interfaces competed for one destination"
 	w := &world{h: h}
 	run := func(ops []string, tag string) {
